@@ -920,17 +920,21 @@ class uhf_cpmc(uhf, wave_function_cpmc):
         g_jj = green[spin_j, j, j]
         g_ij = (spin_i == spin_j) * green[spin_i, i, j]
         g_ji = (spin_i == spin_j) * green[spin_j, j, i]
+        # both rank-1 terms are built from the old Green's function (for spin_i == spin_j
+        # the first update would otherwise change the column used by the second)
+        col_i = green[spin_i, :, i]
+        col_j = green[spin_j, :, j]
         green = green.at[spin_i, :, :].add(
             (update_constants[0] / ratio)
             * jnp.outer(
-                green[spin_i, :, i],
+                col_i,
                 update_constants[1] * (g_ij * sg_j - g_jj * sg_i) - sg_i,
             )
         )
         green = green.at[spin_j, :, :].add(
             (update_constants[1] / ratio)
             * jnp.outer(
-                green[spin_j, :, j],
+                col_j,
                 update_constants[0] * (g_ji * sg_i - g_ii * sg_j) - sg_j,
             )
         )
